@@ -15,3 +15,4 @@ INVARIANT InverseLaw
 INVARIANT NucRevLaw
 INVARIANT ComposeLaw
 INVARIANT GapPartition
+PROPERTY ReceiverPreserved
